@@ -305,6 +305,9 @@ _amend('C16', 'The square aliases make_mat2 / make_mat3 / make_mat4 copy lane fo
 _amend('C02', 'A float quotient (mat / scalar, scalar / mat, mat /= scalar) must be the single division of the two lanes: an algebraically equal form with a second rounding (multiplication by the reciprocal) is refuted with a bit pattern at which the two derived terms differ; integer lanes that are not the division term are refuted by a bit-pattern witness.')
 _amend('C17', 'Swizzle proxies as operands (operator form): scalar - / * swizzle and swizzle + - * / swizzle / vector in both operand orders give lane j = lhs_j OP rhs_j as an exact term.')
 _amend('C18', 'Undecided multiple paths of unsigned 32- / 64-bit types are refuted by exact evaluation of the derived term at corners that include multiples above half the range (modular arithmetic: every input with a representable answer is in the domain).')
+_amend('C19', 'The lowp vec3 specialisation of convertLinearToSRGB is the published root approximation c1 x^(1/2) + c2 x^(1/4) - c3 x^(1/8) - c4 x per component (constants as cited, s(1) = 1); its accuracy against the exact curve is not re-derived.')
+_amend('C10', 'The aligned double matrix types of the SSE2 configuration are analysed in the quick tier as well (the aligned inverse(mat3) for double runs on the generic vec4 cross-product overload).')
+_amend('C17', 'The SIMD swizzle specialisations are instantiated for float, int and uint (and double under AVX2 in the thorough tier).')
 _amend('C15', 'The floor-based portable spellings of trunc and round (the pre-C++11 fallbacks) are read as the functions they are (exact identities), so those configuration pairs are proved rather than left undecided; the bit-pattern witness tries the half-way boundary inputs (predecessor of one half, odd integers of the last binade, signed zero).')
 _amend('C05', 'A findLSB / findMSB shape that does not normalise is evaluated (derived term) at members of the shape and refuted on a wrong value.')
 _amend('C06', 'Templated packHalf<L> / unpackHalf<L> lane plumbing; packRGBM / unpackRGBM against their definition (m = ceil(clamp(max(c) / 6, 0, 1) * 255) / 255, colour lanes (c / 6) / m, decoder rgb * m * 6).')
